@@ -135,9 +135,12 @@ def owned_containers(roots: Dict[str, Any]) -> Dict[str, int]:
         return hasattr(o, "__dict__") and not isinstance(o, type) and (m.startswith("semantiva") or m.startswith("verif") or m == "abc")
 
     def walk(o, path, depth):
-        if id(o) in seen or depth > 6:
+        # one count per (path, object): what a path shows must not depend on whether ANOTHER path reached the object
+        # first (with a global "seen", the last run's context was attributed to the transport's retained messages
+        # while those were among the first 200 items and to _last_nodes afterwards -- a growth of 1 that is not one)
+        if (path, id(o)) in seen or depth > 6:
             return
-        seen.add(id(o))
+        seen.add((path, id(o)))
         if isinstance(o, kinds) or isinstance(o, tuple):
             if not isinstance(o, tuple):
                 out[path] = out.get(path, 0) + len(o)
